@@ -113,8 +113,25 @@ def impl_sets_run(ops):
                     else:
                         a, b = regs[op[2]], regs[op[3]]
                         before = (_dump(a), _dump(b))
-                        res = {"union": a.__or__, "inter": a.__and__, "diff": a.__sub__, "xor": a.__xor__}[name](b)
-                        assert (_dump(a), _dump(b)) == before, "operator mutated an operand"
+                        if r == op[2] and r != op[3]:
+                            # target register = left operand: the augmented spelling  a |= b  (IPSet defines no in-place operators, so
+                            # it means a = a | b: a stays an IPSet holding the result, b is unchanged)
+                            t = a
+                            if name == "union":
+                                t |= b
+                            elif name == "inter":
+                                t &= b
+                            elif name == "diff":
+                                t -= b
+                            else:
+                                t ^= b
+                            assert isinstance(t, netaddr.IPSet), "augmented operator left %r behind" % (t,)
+                            assert _dump(b) == before[1], "augmented operator mutated the right operand"
+                            res = t
+                        else:
+                            import operator as _op          # the operator syntax itself (a | b), not the method behind it
+                            res = {"union": _op.or_, "inter": _op.and_, "diff": _op.sub, "xor": _op.xor}[name](a, b)
+                            assert (_dump(a), _dump(b)) == before, "operator mutated an operand"
                         regs[r] = res
                 except Exception as e:  # noqa
                     err = exn_of(e)
